@@ -8,7 +8,7 @@ DRIVER = "c16"
 PROPS_MODULE = "OxyModel.Props.C16"
 AUDIT = "OxyModel/Audit/C16.lean"
 THEOREMS = ["C16.C16_classify_total", "C16.C16_classify_kinds", "C16.C16_failure_modes", "C16.C16_relay_identity",
-            "C16.C16_listener_paired", "C16.C16_listener_sequence"]
+            "C16.C16_listener_paired", "C16.C16_listener_sequence", "C16.C16_abort_after_head", "C16.C16_complete_transfer"]
 RACE = True
 JOBS = 8
 BATCH_TIMEOUT = 400
@@ -27,6 +27,13 @@ ASSUMPTIONS = [
     "these are left out of the comparison; a 304 carries no Content-Type (the server strips it)",
     "statuses 1xx and 101 (protocol switch), response trailers, HEAD and HTTP/2 backends are outside the generated scope",
     "loopback sockets only; no wall-clock assertion other than 'an op finishes within the 5 s watchdog'; the response-header timeout is 120 ms in stall scenarios",
+    "'backend cannot be reached -> 502' is proved and exercised for refused connections and for RST/FIN before the head; a backend that is unreachable by *timing out* "
+    "(black-holed dial, net.Error with Timeout()) is classified 504 by utils.StdHandler like every timeout (ErrKind.netTimeout) — outside the quantifier's list, not exercised",
+    "failures after the response head (abort / reset during body copy) are modelled by Fwd.relayOutcome (head relayed, transfer incomplete, handler panics with ErrAbortHandler) and proved in "
+    "C16_abort_after_head; that the stdlib really panics there is exercised by the abort ops, not verified",
+    "listener pairing is proved per call and for sequential composition (C16_listener_paired / _sequence); for concurrent requests (presp) per-request pairing follows from the per-call theorem "
+    "because StateListener.ServeHTTP shares no state between calls — no interleaving semantics is modelled, the run checks k connected / k disconnected",
+    "C16_relay_identity's status/body clauses are a record-update identity of the model; byte identity of streamed bodies is checked by digests only",
     "backend Connection headers never contain 'close' here (that is C08's known finding resp_connection_close)",
 ]
 TRUSTED = ["raw loopback backend / client in /verif/harness/cmd/c08/fx", "status recorder and outermost done-signal wrapper in /verif/harness/cmd/c16"]
